@@ -18,11 +18,27 @@ import sys
 import time
 
 ROOT = "/verif"
-REPO = "/repo"
+# The checks always verify /repo.  For mutation testing ONLY, VERIF_REPO may point at a private git
+# worktree of /repo (git -C /repo worktree add /tmp/wt-x HEAD): build output and evidence of such a
+# run go to a private directory so that nothing registered in MANIFEST.json is disturbed.
+REPO = os.environ.get("VERIF_REPO", "/repo").rstrip("/")
 DAEMON = REPO + "/daemon"
-BUILD = ROOT + "/build"
 COQ = ROOT + "/coq"
-EVID = ROOT + "/evidence"
+if REPO == "/repo":
+    BUILD = ROOT + "/build"
+    EVID = ROOT + "/evidence"
+else:
+    BUILD = ROOT + "/build/alt_" + hashlib.sha1(REPO.encode()).hexdigest()[:10]
+    EVID = BUILD + "/evidence"
+    # private copy of the Coq tree (sources and compiled files): the generated Gen/*.v of a mutated
+    # repository must not disturb the shared development
+    os.makedirs(BUILD, exist_ok=True)
+    subprocess.run(["rsync", "-a", "--delete", "--exclude", "Gen/*.v", "--exclude", "Gen/*.vo", "--exclude", "Gen/*.glob",
+                    "--exclude", "Gen/.*.aux", "--exclude", "Gen/*.vok", "--exclude", "Gen/*.vos",
+                    ROOT + "/coq/", BUILD + "/coq/"], check=False)
+    if not os.path.isdir(BUILD + "/coq/Gen") or not os.listdir(BUILD + "/coq/Gen"):
+        subprocess.run(["rsync", "-a", ROOT + "/coq/Gen/", BUILD + "/coq/Gen/"], check=False)
+    COQ = BUILD + "/coq"
 HARNESS_GO = ROOT + "/harness/go"
 KNOWN = ROOT + "/KNOWN_FINDINGS.txt"
 
@@ -92,6 +108,7 @@ def write_if_changed(path, text):
 def gen_facts():
     """Regenerate coq/Gen/*.v from the current tree. Returns (ok, log)."""
     with Lock("gen"):
+        os.makedirs(BUILD, exist_ok=True)
         rc, out = sh([sys.executable, ROOT + "/tools/gen_all.py"], timeout=300, env=GOENV)
     return rc == 0, out
 
